@@ -451,6 +451,7 @@ def run_phases(case, watchdog=None, keep_raw=False):
         obs['raw'] = raw
     if sched is not None:
         obs['schedule'] = list(sched.decisions)
+        obs['sched'] = {'alts': list(sched.alts), 'decisions': len(sched.decisions)}
     elif schedule is not None:
         obs['schedule'] = schedule
     return obs
@@ -733,8 +734,32 @@ def nontrivial(case, obs):
     return runlib.nontrivial(case, obs) and any(e[0] == 'failure' for e in obs['trace'])
 
 
+def enumerate_schedules(case, limit=64, on_obs=None):
+    """every completion order of a thread case under eager dispatch (stateless DFS over the scheduler's decision tree,
+    as runlib.enumerate_schedules, but each run is the three-run history)"""
+    stack = [[]]
+    runs = 0
+    while stack and runs < limit:
+        prefix = stack.pop()
+        c = dict(case)
+        c['policy'] = {'kind': 'eager'}
+        c['schedule'] = prefix
+        obs = run_phases(c)
+        runs += 1
+        dec = obs.get('schedule') or []
+        alts = (obs.get('sched') or {}).get('alts') or []
+        c['schedule'] = list(dec)
+        if on_obs:
+            on_obs(c, obs)
+        for pos in range(len(dec) - 1, len(prefix) - 1, -1):
+            for alt in (alts[pos] if pos < len(alts) else []):
+                if alt != dec[pos]:
+                    stack.append(dec[:pos] + [alt])
+    return runs, not stack
+
+
 def eval_batch(batch):
-    """worker: batch = {'cases': [case...]} and/or {'gen': [(seed, knobs)...]}"""
+    """worker: batch = {'cases': [case...]} and/or {'gen': [(seed, knobs)...]} and/or {'explore': [thread case...]}"""
     st = common.WorkerStats()
     common.use_repo()
     pairs = []
@@ -747,6 +772,15 @@ def eval_batch(batch):
         c = gen_case(rng, **knobs)
         c['seed'] = seed
         pairs.append((c, run_phases(c)))
+    for c in batch.get('explore', []):
+        c = prepare(json.loads(json.dumps({k: v for k, v in c.items() if k != 'model'})))
+        got = []
+        runs, done = enumerate_schedules(c, limit=batch.get('limit', 48), on_obs=lambda cc, oo: got.append((cc, oo)))
+        st.count('exhaustive:cases')
+        st.count('exhaustive:schedules', runs)
+        if not done:
+            st.count('exhaustive:truncated')
+        pairs += got
     answers = ask_model(pairs)
     shrink_left = batch.get('shrink_s', 20.0)
     for (c, o), a in zip(pairs, answers):
@@ -813,11 +847,34 @@ def small_scope_cases():
     return out
 
 
+def explore_cases():
+    """thread cases run under EVERY completion order: a failing task next to independent / co-dependency tasks"""
+    T = runlib._new_task
+
+    def t(name, **kw):
+        x = T(name)
+        x.update(kw)
+        return x
+    out = []
+    for out_, how in (('failed', 'return'), ('error', 'raise'), ('saveerr', 'return')):
+        for cont in (True, False):
+            for nproc in (2, 3):
+                out.append({'tasks': [t('f', outcome=out_, how=how), t('g'), t('d', task_dep=['f', 'g']),
+                                      t('e', task_dep=['g']), t('h', setup=['d'])],
+                            'sel': ['h', 'e'], 'cont': cont, 'always': False, 'runner': 'thread', 'nproc': nproc,
+                            'warm': cont, 'backend': BACKENDS[(nproc + len(out_)) % 3]})
+                out.append({'tasks': [t('c'), t('f', outcome=out_, how=how), t('d', task_dep=['f'], calc_dep=['c']),
+                                      t('g', calc_dep=['f']), t('z')],
+                            'sel': ['d', 'g', 'z'], 'cont': cont, 'always': False, 'runner': 'thread', 'nproc': nproc,
+                            'warm': not cont, 'backend': BACKENDS[(nproc + len(how)) % 3]})
+    return out
+
+
 def plan(ctx, scale=1.0):
     quick = ctx.tier == 'quick'
-    n_serial = int((420 if quick else 2600) * ctx.boost * scale)
-    n_thread = int((360 if quick else 2200) * ctx.boost * scale)
-    n_proc = int((12 if quick else 90) * min(ctx.boost, 2) * scale)
+    n_serial = int((420 if quick else 7000) * ctx.boost * scale)
+    n_thread = int((360 if quick else 6000) * ctx.boost * scale)
+    n_proc = int((12 if quick else 180) * min(ctx.boost, 2) * scale)
     rng = ctx.rng
     gen = []
     for _ in range(n_serial):
@@ -842,12 +899,18 @@ def plan(ctx, scale=1.0):
         'edge kinds task_dep/setup/calc_dep/file/getargs/result_dep/delivered, 6 failure placements, + independent task',
         'combos': 'backend x warm x serial/thread(2) x --continue: %s' % ('3 per case (rotating)' if quick else 'all 24')}
     pool += [{'cases': small[i:i + size], 'shrink_s': 6.0} for i in range(0, len(small), size)]
+    ex = explore_cases()
+    if quick and ctx.boost <= 1:
+        ex = [c for i, c in enumerate(ex) if i % 3 == ctx.seed % 3]
+    ctx.extra['exhaustive_small_scope']['thread_completion_orders'] = {
+        'cases': len(ex), 'schedules': 'every completion order under eager dispatch, 2 and 3 workers (limit 48 per case)'}
+    pool += [{'explore': ex[i:i + 3], 'limit': 48, 'shrink_s': 6.0} for i in range(0, len(ex), 3)]
     procs = [(rng.randrange(1 << 60), {'runner': 'process', 'n_max': 6}) for _ in range(n_proc)]
     return pool, [{'gen': procs[i:i + 4], 'shrink_s': 8.0} for i in range(0, len(procs), 4)]
 
 
 def corpus_batches():
-    plain, main = [], []
+    plain, main, explore = [], [], []
     for name, c in common.load_corpus(PROP):
         c['corpus'] = name
         variants = [c]
@@ -858,14 +921,21 @@ def corpus_batches():
                 x['backend'] = b
                 variants.append(x)
         for x in variants:
-            (main if x.get('runner') == 'process' else plain).append(x)
+            if x.get('runner') == 'process':
+                main.append(x)
+            elif x.get('runner') == 'thread':
+                explore.append(x)       # thread seeds run under every completion order
+                plain.append(x)         # ... and once under their own policy
+            else:
+                plain.append(x)
     pool = [{'cases': plain[i:i + 12], 'shrink_s': 10.0} for i in range(0, len(plain), 12)]
+    pool += [{'explore': explore[i:i + 3], 'limit': 40, 'shrink_s': 6.0} for i in range(0, len(explore), 3)]
     return pool, ([{'cases': main, 'shrink_s': 10.0}] if main else [])
 
 
 def run(ctx, scale=1.0):
     cpool, cmain = corpus_batches()
-    ctx.count('corpus', sum(len(b.get('cases', [])) for b in cpool + cmain))
+    ctx.count('corpus', sum(len(b.get('cases', [])) + len(b.get('explore', [])) for b in cpool + cmain))
     pool, main = plan(ctx, scale)
     for st in common.pmap(eval_batch, cpool + pool):
         st.merge_into(ctx)
